@@ -29,6 +29,9 @@ def make_beads(case):
     for c in range(nch):
         m = r.uniform(0.9, 1.2); b = r.uniform(case.get('b_min', 1), 5)
         top = 10 ** r.uniform(4.6, 5.1)                      # brightest bead in RFI
+        if case.get('dim') and c == 0:
+            # channel 0 acquired at a low gain: its dimmest subpopulation is of order 1 a.u. on the 18-bit range (slope and intercept as everywhere)
+            top = case['dim'] * ratio ** (K - 1)
         rfi = [top / ratio ** (K - 1 - j) for j in range(K)]
         first = 1 if case['blank'] else 0
         E_dim = math.exp(b) * rfi[first] ** m                 # MEF + autofluorescence of the dimmest non-blank bead
@@ -54,6 +57,7 @@ def make_beads(case):
         data[:, 0] = data[:, 0] * scale
         m, b, af = laws[0]
         laws[0] = (m, b - m * math.log(scale), af)          # rfi' = scale*rfi  =>  log(mef+af) = m log(rfi') + b - m log(scale)
+    piled = [[0, K - 1]] if case['saturate'] else []
     data = np.clip(data, 0, res - 1)
     perm = r.permutation(len(label))
     order = case.get('order', 'shuffled')
@@ -63,16 +67,35 @@ def make_beads(case):
         perm = np.argsort(-label, kind='stable')
     data, label = data[perm], label[perm]
     import struct
-    data = data.astype(np.float32)
-    spec = {'version': 'FCS3.0', 'delim': '/', 'datatype': 'F', 'byteord': '1,2,3,4', 'widths': [32] * nch, 'ranges': [res] * nch,
-            'events': [[struct.unpack('<I', struct.pack('<f', v))[0] for v in row] for row in data], 'names': chans,
-            'pne': {str(i + 1): '0,0' for i in range(nch)}}
-    d, _ = samples.load(spec, name='c02_%d.fcs' % (case['seed'] % 7))
+    if case.get('logamp'):
+        # a 10-bit log amplifier over four decades: the file holds channel numbers, the analysis runs on the RFI values (range [1, ~9910]);
+        # channel 0 is scaled so that its dimmest population lies below RFI 1 and piles up at the lower detector limit
+        sc0 = 0.55 / np.median(data[label == 0, 0])
+        data[:, 0] = data[:, 0] * sc0
+        m, b, af = laws[0]
+        laws[0] = (m, b - m * math.log(sc0), af)
+        for c in range(1, nch):
+            scc = 6000.0 / np.median(data[label == K - 1, c])
+            data[:, c] = data[:, c] * scc
+            m, b, af = laws[c]
+            laws[c] = (m, b - m * math.log(scc), af)
+        ch = np.clip(np.round(256.0 * np.log10(np.maximum(data, 1e-9))), 0, 1023).astype(int)
+        piled = [[0, 0]]
+        spec = {'version': 'FCS3.0', 'delim': '/', 'datatype': 'I', 'byteord': '1,2,3,4', 'widths': [16] * nch, 'ranges': [1024] * nch,
+                'events': [[int(v) for v in row] for row in ch], 'names': chans, 'pne': {str(i + 1): '4,1' for i in range(nch)}}
+        d, _ = samples.load(spec, name='c02_%d.fcs' % (case['seed'] % 7))
+        d = FlowCal.transform.to_rfi(d)
+    else:
+        data = data.astype(np.float32)
+        spec = {'version': 'FCS3.0', 'delim': '/', 'datatype': 'F', 'byteord': '1,2,3,4', 'widths': [32] * nch, 'ranges': [res] * nch,
+                'events': [[struct.unpack('<I', struct.pack('<f', v))[0] for v in row] for row in data], 'names': chans,
+                'pne': {str(i + 1): '0,0' for i in range(nch)}}
+        d, _ = samples.load(spec, name='c02_%d.fcs' % (case['seed'] % 7))
     mef_values = [list(l) for l in mefs]
     for (c, j) in case['unknown']:
         if c < nch and j < K:
             mef_values[c][j] = None if (c + j) % 2 else float('nan')
-    return d, {'label': label, 'laws': laws, 'mefs': mefs, 'mef_values': mef_values, 'chans': chans}
+    return d, {'label': label, 'laws': laws, 'mefs': mefs, 'mef_values': mef_values, 'chans': chans, 'piled': piled}
 
 
 class Prop(common.PropertyCheck):
@@ -128,6 +151,13 @@ class Prop(common.PropertyCheck):
             yield {'k': 'beads', 'K': K, 'nch': 2, 'sizes': [int(fr.randint(200, 801)) for _ in range(K)], 'ratio': float(fr.uniform(2.5, 4.0)),
                    'cv': float(fr.uniform(0.02, 0.05)), 'blank': False, 'saturate': False, 'unknown': [], 'stat': 'median', 'clust': 'all',
                    'seed': int(fr.randint(1 << 30)), 'stream': 'unequal', 'idx': i}
+
+        # a log amplifier: after conversion to RFI the lower range limit is 1, not 0; the dimmest subpopulation is piled up there
+        for nchx in (1, 2):
+            yield dict(base_case, K=8, sizes=[450] * 8, ratio=3.2, nch=nchx, logamp=True, clust='first', seed=1000 + nchx)
+        # the clustering channel acquired at a low gain (dimmest subpopulations around 1 a.u.), a second channel calibrated from the same clusters
+        for i, dim in enumerate((0.6, 1.0, 0.8)):
+            yield dict(base_case, K=8, sizes=[500] * 8, ratio=3.0, nch=2, dim=dim, clust='first', seed=2000 + i)
 
     def run_impl(self, case):
         try:
@@ -202,6 +232,7 @@ class Prop(common.PropertyCheck):
             selmask = FlowCal.mef.selection_std([d[tr['label'] == j][:, c] for j in range(K)])
             exp_sel.append([bool(x) for x in selmask])
         out['exp_stats'] = exp_stats
+        out['piled'] = tr['piled']
         out['exp_sel'] = exp_sel
         out['mef_values'] = [[None if (v is None or (isinstance(v, float) and math.isnan(v))) else bits(v) for v in l] for l in tr['mef_values']]
         # accuracy of the conversion from run (i) against the truth, over the calibrated span
@@ -285,6 +316,11 @@ class Prop(common.PropertyCheck):
                 return 'channel %d: selected (RFI, MEF) pairs differ from "own value, unknown/saturated excluded" (%s)' % (ci, tag)
             if len(inj['rfi'][ci]) != len(inj['mef'][ci]):
                 return 'selected RFI and MEF lists differ in length'
+        # known by construction, independent of the library's own selection: a subpopulation piled up at a detector limit takes no part in the fit
+        for ci, j in impl.get('piled', []):
+            mv = impl['mef_values'][ci][j]
+            if mv is not None and mv in inj['mef'][ci]:
+                return 'channel %d: subpopulation %d is piled up at a detector limit but took part in the fit (%s)' % (ci, j, tag)
         if impl['inj_acc'] > 0.10:
             return 'with the true grouping the conversion is %.1f%% off the truth (%s)' % (100 * impl['inj_acc'], tag)
         # stage (ii): the real clustering
